@@ -119,6 +119,44 @@ func runCtxProg(rep *Report, cc ctxCase, closedAt *sync.Map) {
 			releaseLock = func() { w.Close(); hcancel() }
 		case st.When == "pongWait":
 			atomic.StoreInt32(&withholdPong, 1)
+		case st.When == "sharedCtxReadDone", st.When == "sharedCtxReadFirst", st.When == "sharedCtxWriteFirst":
+			atomic.StoreInt32(&pauseDrain, 1) // writes block on a zero window
+			raw.In.Cap = 1
+		}
+		// shared context: a second call of the other direction runs under the SAME context and completes while the
+		// call under test is still blocked; only then is the context cancelled
+		var auxDone chan error
+		switch st.When {
+		case "sharedCtxWriteDone": // under test: Read (no data pending); helper: a small Write
+			auxDone = make(chan error, 1)
+			go func() {
+				time.Sleep(15 * time.Millisecond)
+				auxDone <- c.Write(ctx, websocket.MessageText, []byte("helper write under the shared context"))
+			}()
+		case "sharedCtxWriteFirst": // helper Write enters first and is held by the zero window; then the Read under test; then the window opens
+			auxDone = make(chan error, 1)
+			go func() { auxDone <- c.Write(ctx, websocket.MessageBinary, payload) }()
+			time.Sleep(15 * time.Millisecond)
+			time.AfterFunc(30*time.Millisecond, func() {
+				raw.In.Cap = 0
+				atomic.StoreInt32(&pauseDrain, 0)
+			})
+		case "sharedCtxReadFirst": // helper Read enters first and waits for data; then the Write under test (zero window); then the data arrives
+			auxDone = make(chan error, 1)
+			go func() { _, _, e := c.Read(ctx); auxDone <- e }()
+			time.Sleep(15 * time.Millisecond)
+			time.AfterFunc(30*time.Millisecond, func() {
+				send(ws.Frame{Fin: true, Op: ws.OpBin, Payload: []byte("helper message under the shared context")})
+			})
+		case "sharedCtxReadDone": // under test: Write (zero window); helper: Read of a message the peer sends
+			auxDone = make(chan error, 1)
+			go func() {
+				time.Sleep(15 * time.Millisecond)
+				// a plain message: a ping inside it would need a pong, which cannot be written while the write under test holds the frame lock
+				send(ws.Frame{Fin: true, Op: ws.OpBin, Payload: []byte("helper message under the shared context")})
+				_, _, e := c.Read(ctx)
+				auxDone <- e
+			}()
 		}
 		var readerDone chan error
 		if st.Op == "ping" {
@@ -134,13 +172,35 @@ func runCtxProg(rep *Report, cc ctxCase, closedAt *sync.Map) {
 				readerDone <- e
 			}()
 		}
-		if blocked {
+		var auxErr error
+		var cancelAt atomic.Value
+		if blocked && auxDone != nil {
+			go func() {
+				auxErr = <-auxDone
+				time.Sleep(20 * time.Millisecond)
+				websocket.VerifEmit(c, "CtxCancel", "", id, 1)
+				cancelAt.Store(time.Now())
+				cancel()
+			}()
+		} else if blocked {
 			time.AfterFunc(25*time.Millisecond, func() {
 				websocket.VerifEmit(c, "CtxCancel", "", id, 1)
+				cancelAt.Store(time.Now())
 				cancel()
 			})
 		}
 		t0 := time.Now()
+		opDone := make(chan struct{})
+		go func() {
+			// watchdog: a call that does not come back 6 s after it started is reported and the connection torn down
+			select {
+			case <-opDone:
+			case <-time.After(6 * time.Second):
+				rep.miss("cancelled-call-did-not-return-promptly", cc, fmt.Sprintf("%s/%s still blocked after 6s", st.Op, st.When))
+				c.CloseNow()
+			}
+		}()
+		defer close(opDone)
 		switch st.Op {
 		case "read":
 			_, _, err = c.Read(ctx)
@@ -165,6 +225,14 @@ func runCtxProg(rep *Report, cc ctxCase, closedAt *sync.Map) {
 			err = c.Ping(ctx)
 		}
 		dur = time.Since(t0)
+		if t, ok := cancelAt.Load().(time.Time); ok {
+			dur = time.Since(t) // "promptly" is measured from the cancellation
+		}
+		if auxDone != nil {
+			if auxErr != nil && err != nil {
+				err = fmt.Errorf("%w (helper call under the shared context failed first: %v)", err, auxErr)
+			}
+		}
 		websocket.VerifEmit(c, "ApiEnd", "", id, websocket.VerifErrClass(err))
 		if !blocked {
 			websocket.VerifEmit(c, "CtxCancel", "", id, 0)
